@@ -2,8 +2,8 @@
 Model of `parse_lcov` / `add_branch` (src/parser.rs) as a Mealy machine folded over the input
 bytes. The Rust code only reads forward through a `Peekable` iterator; `take_while` consumes the
 first byte that fails its predicate. Control states are the program points of `parse_lcov`.
-Arithmetic is the debug-build one (overflow ⇒ panic), which is what `cargo test` and the
-correspondence harness run.
+Numbers that do not fit their type reject the record (`try_digits!`), duplicate DA counts
+saturate.
 -/
 import GrcovModel.Merge
 namespace Grcov.Lcov
@@ -149,7 +149,7 @@ def digitsStep (bound : Nat) (r b : Nat) (cont : Nat → Ctl) (done : Nat → Ct
   if isDigit b then
     match pushDigit bound r b with
     | some v => cont v
-    | none => .halt (.panic "overflow")
+    | none => invalidRecord       -- checked_mul/checked_add failed: the record is rejected
   else done r
 
 def step (branch : Bool) (s : St) (b : Nat) : St :=
@@ -186,7 +186,7 @@ def step (branch : Bool) (s : St) (b : Nat) : St :=
     if isDigit b then
       match pushDigit U64MAX c b with
       | some v => { s with ctl := .daCount l v }
-      | none => { s with ctl := .halt (.panic "overflow") }
+      | none => { s with ctl := invalidRecord }
     else { ctl := .dispatch, acc := commitLine a l c }
   -- FN:<start>,<name>
   | .fnFirst =>
